@@ -18,6 +18,7 @@ import (
 	"verif/harness/proj"
 	"verif/harness/ref4"
 	"verif/harness/ref6"
+	"verif/harness/reflabel"
 	"verif/harness/tree"
 	"verif/harness/v6util"
 )
@@ -220,7 +221,17 @@ func nonCanon6(r *rand.Rand) []byte {
 	n := 1 + r.IntN(4)
 	for i := 0; i < n; i++ {
 		var o []byte
-		switch r.IntN(14) {
+		switch r.IntN(16) {
+		case 14, 15: // names within a few octets of the 255-octet limit, ended by root / end of option / pointer
+			v := reflabel.Boundary(r)
+			switch r.IntN(3) {
+			case 0:
+				o = tlv(24, v)
+			case 1:
+				o = tlv(39, append([]byte{byte(r.UintN(8))}, v...))
+			default:
+				o = tlv(56, tlv(3, v))
+			}
 		case 12, 13: // names whose labels hold octets a dotted string cannot carry faithfully: '.' at a label edge or alone,
 			// NUL, upper case, high octets (uncompressed, root-terminated: only the verbatim wire form keeps them apart)
 			var v []byte
